@@ -218,7 +218,6 @@ func runBatch(root, bin string, p *Prop, tier Tier, seed int64, b Batch, scratch
 	return res
 }
 
-var reRaceFrame = regexp.MustCompile(`^\s+([^\s(]+)\(`)
 var reLineNo = regexp.MustCompile(`:\d+( \+0x[0-9a-f]+)?$`)
 
 // RaceReport is one de-duplicated race report.
@@ -248,8 +247,13 @@ func parseRaceLog(data string) []RaceReport {
 			}
 			k := "?"
 			for _, ln := range strings.Split(s, "\n") {
-				if m := reRaceFrame.FindStringSubmatch(ln); m != nil && strings.Contains(m[1], "corazawaf/coraza/v3") && !strings.Contains(m[1], "verifhook") {
-					k = strings.TrimPrefix(m[1], "github.com/corazawaf/coraza/v3")
+				fn := strings.TrimSpace(ln)
+				if !strings.HasSuffix(fn, "()") || strings.HasPrefix(ln, "      ") {
+					continue
+				}
+				fn = strings.TrimSuffix(fn, "()")
+				if strings.Contains(fn, "corazawaf/coraza/v3") && !strings.Contains(fn, "verifhook") {
+					k = strings.TrimPrefix(fn, "github.com/corazawaf/coraza/v3")
 					break
 				}
 			}
